@@ -211,6 +211,8 @@ def run(ck):
         couplings = {(i, j): rng.choice([40.0, -90.0, 150.0]) for i in range(n) for j in range(i + 1, n)} if coupled else {}
         relax = coupled and rng.random() < 0.5
         t2 = rng.choice([0.0, 10.0, 20.0, 40.0])
+        if not coupled and s % 4 == 1:
+            t2 = rng.choice([10.0, 20.0, 40.0])      # additivity at a waiting time > 0 in every run (coherences evolve during t2)
         pols = [(X3, X3, X3, X3), (X3, X3, Y3, Y3), (X3, Y3, X3, Y3), (X3, Y3, Y3, X3),
                 (X3, Y3, (X3 + Y3) / math.sqrt(2.0), 0.6 * X3 + 0.8 * Z3), tuple(rand_unit() for _ in range(4))]
         pol = pols[s % len(pols)] if not ck.quick else pols[(2 * s + 1) % len(pols)]
